@@ -1305,6 +1305,9 @@ def str_to_man_exp(x, base=10):
         a, b = parts[0], parts[1].rstrip('0')
         exp -= len(b)
         x = a + b
+        if x in ('', '+', '-'):
+            # literals such as ".0" or "-.0"
+            x += '0'
     x = MPZ(int(x, base))
     return x, exp
 
